@@ -57,6 +57,14 @@ def sizes_corpus(ctx):
         k = hx(("L%d-" % n) + "y" * n)
         h += ["s 0 %s 4001 set" % k, "g 0 %s" % k, "b 1 RR", "s 1 %s 4002 reader" % k, "g 1 %s" % k, "k 1", "c 1", "g 0 %s" % k, "k 0", "d 0 %s" % k, "g 0 %s" % k]
     hs.append(h)
+    # big CONTENTS (content number 10^12 + size): written by every method, read directly and through transactions
+    big = [5 * 2**20 + 1, 9 * 2**20] + ([20 * 2**20 + 123] if ctx.thorough else [])
+    h = []
+    for i, size in enumerate(big):
+        k = hx("big%d" % i)
+        h += ["s 0 %s %d %s" % (k, 10**12 + size, ["create", "reader", "set"][i % 3]), "g 0 %s" % k, "g 0 %s" % k, "g 0 %s" % k,
+              "b 1 SER", "g 1 %s" % k, "s 1 %s %d reader" % (k, 10**12 + size + 7), "g 1 %s" % k, "c 1", "g 0 %s" % k]
+    hs.append(h)
     cp = os.path.join(ctx.rd, "c11sizes.corpus")
     with open(cp, "w") as f:
         for h in hs:
